@@ -135,10 +135,10 @@ theorem step_binv (cfg : Config S) (hdt : 0 ≤ cfg.dt) (P : NodeId → Proto S 
 
 theorem reachable_binv {cfg : Config S} (hdt : 0 ≤ cfg.dt) {P : NodeId → Proto S σ} {w : World S σ}
     (h : Reachable cfg P w) : BInv cfg w := by
-  obtain ⟨n, rfl⟩ := h
+  obtain ⟨pre, n, rfl⟩ := h
   suffices ∀ n (w : World S σ), BInv cfg w → LInv cfg w →
       BInv cfg (steps cfg P n w) ∧ LInv cfg (steps cfg P n w) from
-    (this n _ (init_binv cfg P) (init_linv cfg P)).1
+    (this n _ (binv_of_ext (ext_initWith cfg P pre) (init_binv cfg P)) (initWith_linv cfg P pre).1).1
   intro n
   induction n with
   | zero => intro w hw hl; exact ⟨hw, hl⟩
